@@ -46,8 +46,9 @@ def cells7() -> List[str]:
 
 
 class Ctx:
-    def __init__(self, fleets: Tuple[str, ...]):
-        self.cfg = make_config(dispatcher={"matching_range_km_threshold": RANGE_THRESHOLD_KM})
+    def __init__(self, fleets: Tuple[str, ...], valid_states: Tuple[str, ...] = ("idle", "repositioning")):
+        self.valid_states = tuple(valid_states)
+        self.cfg = make_config(dispatcher={"matching_range_km_threshold": RANGE_THRESHOLD_KM, "valid_dispatch_states": list(valid_states)})
         self.env = make_env(self.cfg, fleets=fleets)
         self.rn = HaversineRoadNetwork(sim_h3_resolution=15)
         self.base_sim = build_sim(self.env, self.rn)
@@ -70,6 +71,13 @@ class Ctx:
                 v = v.modify_vehicle_state(OutOfService.build(v.id))
             elif attr == "off_shift":
                 v = v.modify_driver_state(HumanUnavailable(HumanDriverAttributes(v.id, "sched", "b0", False)))
+            elif attr == "en_route_own":
+                # travelling to the request with the same index (which records this vehicle)
+                from nrel.hive.state.vehicle_state.dispatch_trip import DispatchTrip
+
+                far = sites()["F1"]
+                route = self.rn.route(v.position, self.rn.position_from_geoid(far))
+                v = v.modify_vehicle_state(DispatchTrip.build(v.id, f"r{i}", route))
             self._veh[k] = v
         return v
 
@@ -83,6 +91,8 @@ class Ctx:
             r = Request.build(f"r{j}", cell, sites()["M2"], self.rn, SimTime.build(0), 1, False, fleet_id=fleet)
             if attr == "has_vehicle":
                 r = r.assign_dispatched_vehicle("vx", SimTime.build(0))
+            elif attr.startswith("assigned:"):
+                r = r.assign_dispatched_vehicle(attr.split(":")[1], SimTime.build(0))
             self._req[k] = r
         return r
 
@@ -98,7 +108,7 @@ class Ctx:
 def vehicle_reason(ctx: Ctx, v, fleet: Optional[str]) -> Optional[str]:
     """None if eligible for this fleet's pass by the statement's four conditions, else the reason"""
     n = v.vehicle_state.__class__.__name__
-    if n.lower() not in ("idle", "repositioning"):
+    if n.lower() not in ctx.valid_states:
         return "activity not dispatchable"
     if not v.driver_state.available:
         return "driver off shift"
@@ -244,6 +254,33 @@ def _elig_shard(shard) -> Dict[str, Any]:
     return out
 
 
+def _rematch_shard(shard) -> Dict[str, Any]:
+    """configuration in which vehicles already travelling to a request may be matched again
+    (valid_dispatch_states incl. DispatchTrip): an en-route vehicle is eligible, its own request is not"""
+    gi = shard
+    ctx = Ctx((), valid_states=("idle", "repositioning", "dispatchtrip"))
+    cells = cells7()
+    vcells, rcells = GEOMS[gi]
+    out = {"cases": 0, "nontrivial": 0, "findings": {}, "samples": []}
+    for va in itertools.product(("eligible", "en_route_own", "out_of_service"), repeat=3):
+        vehicles = [ctx.vehicle(k, cells[vcells[k]], va[k]) for k in range(3)]
+        sim_v = ctx.sim(vehicles, [])
+        for ra in itertools.product(("waiting", "has_vehicle"), repeat=3):
+            ra = tuple(f"assigned:v{k}" if va[k] == "en_route_own" else ra[k] for k in range(3))
+            sim = sim_v
+            for k in range(3):
+                sim = simulation_state_ops.add_request_safe(sim, ctx.request(k, cells[rcells[k]], ra[k])).unwrap()
+            out["cases"] += 1
+            if "en_route_own" in va:
+                out["nontrivial"] += 1
+            for sig, msg in judge(ctx, sim):
+                out["findings"].setdefault(sig + ("rematch_config",), (msg, {"kind": "rematch", "geometry": gi, "vehicle_attrs": list(va), "request_attrs": list(ra)}))
+            if len(out["samples"]) < 1 and va.count("en_route_own") == 1:
+                out["samples"].append({"config": "valid_dispatch_states incl. dispatchtrip", "geometry": gi, "vehicle_attrs": list(va), "request_attrs": list(ra)})
+    out["findings"] = [(list(k), m, rp) for k, (m, rp) in out["findings"].items()]
+    return out
+
+
 def c12() -> int:
     c = Check("C12", "bounded exhaustive enumeration of dispatcher inputs against a brute-force matcher")
     quick = tier() == "quick"
@@ -259,6 +296,7 @@ def c12() -> int:
     gres = pmap(_geom_shard, rotate(shards, seed()))
     eshards = [(gi, fl, va0) for gi in range(len(GEOMS)) for fl in ((), ("f1", "f2")) for va0 in VEH_ATTRS]
     eres = pmap(_elig_shard, rotate(eshards, seed()))
+    eres += pmap(_rematch_shard, list(range(len(GEOMS))))
     cases = sum(r["cases"] for r in gres + eres)
     nontrivial = sum(r["nontrivial"] for r in gres + eres)
     for r in gres + eres:
@@ -273,7 +311,7 @@ def c12() -> int:
             "distinct_nontrivial": nontrivial,
             "rule": "(i) every placement of nv vehicles and nr requests on 7 cells for all (nv, nr) in {0..3}^2"
             + ("" if quick else " plus every multiset placement for (4,1..4),(1..3,4)")
-            + ", all eligible, no fleets; (ii) on 6 fixed 3x3 geometries every combination of 7 vehicle attributes (eligible, out of service, off shift, low range, other fleet, no fleet, both fleets) and 3 request attributes (waiting, has a vehicle, other fleet), without fleets and with fleets {f1,f2}; non-trivial = both sides non-empty / some attribute not the default",
+            + ", all eligible, no fleets; (iii) on the same geometries, under a configuration whose valid_dispatch_states include DispatchTrip, every combination of (eligible, en route to its own request, out of service) x (waiting, has a vehicle); (ii) on 6 fixed 3x3 geometries every combination of 7 vehicle attributes (eligible, out of service, off shift, low range, other fleet, no fleet, both fleets) and 3 request attributes (waiting, has a vehicle, other fleet), without fleets and with fleets {f1,f2}; non-trivial = both sides non-empty / some attribute not the default",
             "geometry_cases": sum(r["cases"] for r in gres),
             "eligibility_cases": sum(r["cases"] for r in eres),
             "samples": [s for r in gres for s in r["samples"]][:2] + [s for r in eres for s in r["samples"]][:2],
@@ -291,7 +329,12 @@ def c12() -> int:
 def replay(body) -> int:
     rp = body["replay"]
     cells = cells7()
-    if rp["kind"] == "geometry":
+    if rp["kind"] == "rematch":
+        ctx = Ctx((), valid_states=("idle", "repositioning", "dispatchtrip"))
+        vc, rc = GEOMS[rp["geometry"]]
+        vs = [ctx.vehicle(k, cells[vc[k]], rp["vehicle_attrs"][k]) for k in range(3)]
+        rs = [ctx.request(k, cells[rc[k]], rp["request_attrs"][k]) for k in range(3)]
+    elif rp["kind"] == "geometry":
         ctx = Ctx(())
         vs = [ctx.vehicle(k, cells[c], "eligible") for k, c in enumerate(rp["vehicles"])]
         rs = [ctx.request(k, cells[c], "waiting") for k, c in enumerate(rp["requests"])]
